@@ -283,6 +283,8 @@ def oracle_history(cls, init, ops):
 def cgop(o):
     if o[0] == "badadd":
         return "(GBadAdd %s)" % cstr(o[1])
+    if o[0] == "badset":
+        return "(GBadSet %s)" % cstr(o[1])
     return "(GOk %s)" % cop(o)
 
 
@@ -301,6 +303,8 @@ def _gd_new(init):
 def _gd_apply(d, o):
     if o[0] == "badadd":
         return catch(d.add, o[1], None)
+    if o[0] == "badset":
+        return catch(d.__setitem__, o[1], None)
     return apply_op(d, o)[1]
 
 
@@ -325,7 +329,7 @@ def oracle_getdict(init, ops):
         if isinstance(r, Err):
             if now != before:
                 return "step %d %r raised %s but req.GET changed from %r to %r" % (i, o, r, before, now)
-            if o[0] != "badadd":
+            if o[0] not in ("badadd", "badset"):
                 rr = ref.apply(o)
                 if rr != r:
                     return "step %d %r raised %s, list model says %r" % (i, o, r, rr)
@@ -347,9 +351,9 @@ def rand_gd_history(rng, maxlen):
     for o in ops:
         out.append(o)
         if rng.random() < 0.25:
-            out.append(("badadd", rng.choice(KEYS)))
+            out.append((rng.choice(["badadd", "badset"]), rng.choice(KEYS)))
     if rng.random() < 0.5:
-        out.insert(rng.randrange(len(out) + 1), ("badadd", rng.choice(KEYS)))
+        out.insert(rng.randrange(len(out) + 1), (rng.choice(["badadd", "badset"]), rng.choice(KEYS)))
     return init, out
 
 
@@ -747,7 +751,7 @@ def run(ctx):
         init, ops = rand_gd_history(r5, 30)
         msg = oracle_getdict(init, ops)
         if msg:
-            ctx.fail("getdict:write-back", msg, {"class": "getdict", "init": init, "ops": ops}, True)
+            ctx.fail("getdict:write-back", msg, {"class": "getdict", "init": init, "ops": ops}, True, "getdict-writeback")
     ctx.oracle_count("getdict-writeback", m5, m5)
 
     # ---- oracle: the list model against the implementation, exhaustive small histories then random deeper
